@@ -297,6 +297,103 @@ fn swspec_case(lines: &Sexp, label: &Sexp, args: &[Sexp]) -> Sexp {
     Sexp::app("pass", vec![Sexp::int(copies.len() as i64)])
 }
 
+// ---------------------------------------------------------------------------------------------
+// nested labels: a label applies to one statement (possibly a block); an unlabeled statement takes
+// the label of the innermost enclosing labeled block; no label anywhere = every difficulty.
+// items: (call LABEL|none K) | (sw LABEL|none K1 K2 K3 K4) | (block LABEL|none item...)
+
+fn nest_render(items: &[Sexp], indent: usize, out: &mut String) {
+    let pad = " ".repeat(indent);
+    for it in items {
+        let a = it.args();
+        match it.head() {
+            Some("call") => out.push_str(&format!("{pad}{}ins_1001({});\n", label_prefix(&a[0]), a[1].as_i32())),
+            Some("sw") => out.push_str(&format!("{pad}{}ins_1001(({}));\n", label_prefix(&a[0]), a[1..].iter().map(|x| format!("{}", x.as_i32())).collect::<Vec<_>>().join(":"))),
+            Some("block") => { out.push_str(&format!("{pad}{}{{\n", label_prefix(&a[0]))); nest_render(&a[1..], indent + 4, out); out.push_str(&format!("{pad}}}\n")); },
+            _ => {},
+        }
+    }
+}
+
+/// (values, effective label) of every call in textual order
+fn nest_expected(items: &[Sexp], inherited: Option<String>, out: &mut Vec<(Vec<i32>, Option<String>)>) {
+    for it in items {
+        let a = it.args();
+        let own = match &a[0] { Sexp::Atom(s) if s == "none" => None, l => Some(l.as_atom().to_string()) };
+        let eff = own.or_else(|| inherited.clone());
+        match it.head() {
+            Some("call") => out.push((vec![a[1].as_i32()], eff)),
+            Some("sw") => out.push((a[1..].iter().map(|x| x.as_i32()).collect(), eff)),
+            Some("block") => nest_expected(&a[1..], eff, out),
+            _ => {},
+        }
+    }
+}
+
+fn nestlab_case(lines: &Sexp, items: &[Sexp]) -> Sexp {
+    let lines = lines_of(lines);
+    let mut body = String::new();
+    nest_render(items, 4, &mut body);
+    let text = format!("void Sub0() {{\n{body}}}\n");
+    let mut expected = vec![];
+    nest_expected(items, None, &mut expected);
+    let o = with_table(&lines, |truth| {
+        let script = truth.parse::<ast::ScriptFile>("<input>", text.as_bytes())?.value;
+        let compiled = tc::compile_ast(truth, Format::Ecl, GAME, &script)?;
+        let ctx = truth.ctx();
+        let aux = ctx.diff_flag_defs.aux_bits().mask() as u8;
+        let masks: Vec<u8> = expected.iter().map(|(_, l)| match l {
+            None => 0xFF,
+            Some(l) => ctx.diff_flag_defs.parse_diff_string(sp!(&l[..])).map(|m| m.value.mask() as u8).unwrap_or(0),
+        }).collect();
+        Ok((sub0(&compiled), aux, masks))
+    });
+    let Some((instrs, aux, masks)) = o.value else { return Sexp::app("skip", vec![Sexp::str(diag_class(&o.diagnostics))]); };
+    let src = text.replace('\n', " ");
+    for ((vals, _), &mask) in expected.iter().zip(&masks) {
+        let copies: Vec<&RawInstr> = instrs.iter().filter(|i| i.opcode == 1001 && blob_ints(i).first().map_or(false, |v| vals.contains(v))).collect();
+        if vals.len() == 1 {
+            // a plain call: exactly one instruction, carrying the statement's mask
+            if copies.len() != 1 || copies[0].difficulty != mask {
+                return fail("nested-diff-label-wrong-mask", format!("{src}: ins_1001({}) should carry mask {mask:#04x}, emitted: {:?}", vals[0], copies.iter().map(|c| c.difficulty).collect::<Vec<_>>()));
+            }
+        } else {
+            for j in 0..8usize {
+                if aux & (1 << j) != 0 { continue; }
+                let with_bit: Vec<&&RawInstr> = copies.iter().filter(|c| c.difficulty & (1 << j) != 0).collect();
+                let expect_one = j < vals.len() && mask & (1 << j) != 0;
+                if expect_one && (with_bit.len() != 1 || blob_ints(with_bit[0]) != vec![vals[j]]) {
+                    return fail("nested-diff-label-wrong-mask", format!("{src}: switch {vals:?} under mask {mask:#04x}: difficulty {j} is served by {:?}", with_bit.iter().map(|c| (c.difficulty, blob_ints(c))).collect::<Vec<_>>()));
+                }
+                if !expect_one && !with_bit.is_empty() {
+                    return fail("nested-diff-label-wrong-mask", format!("{src}: switch {vals:?} under mask {mask:#04x}: difficulty {j} must not be served, but is by {:?}", with_bit.iter().map(|c| c.difficulty).collect::<Vec<_>>()));
+                }
+            }
+            if copies.iter().any(|c| c.difficulty & aux != mask & aux) {
+                return fail("diff-switch-changes-aux-bits", format!("{src}: switch {vals:?} under mask {mask:#04x}"));
+            }
+        }
+    }
+    Sexp::app("pass", vec![Sexp::int(expected.len() as i64)])
+}
+
+fn gen_nest_items(rng: &mut Rng, lines: &[(i64, String)], depth: u32, next: &mut i32) -> Vec<Sexp> {
+    let mut out = vec![];
+    for _ in 0..1 + rng.below(4) {
+        let label = if rng.chance(1, 2) { Sexp::atom("none") } else {
+            // full masks matter: `*` and all-difficulty strings must override an enclosing narrower label
+            if rng.chance(1, 3) { Sexp::str("*") } else { gen_label(rng, lines) }
+        };
+        if matches!(&label, Sexp::Str(s) if s.is_empty()) { continue; }
+        match rng.below(if depth > 0 { 4 } else { 3 }) {
+            0 | 1 => { *next += 1; out.push(Sexp::app("call", vec![label, Sexp::int(*next)])); },
+            2 => { let mut v = vec![label]; for _ in 0..4 { *next += 1; v.push(Sexp::int(*next)); } out.push(Sexp::app("sw", v)); },
+            _ => { let mut v = vec![label]; v.extend(gen_nest_items(rng, lines, depth - 1, next)); out.push(Sexp::app("block", v)); },
+        }
+    }
+    out
+}
+
 fn swrt_case(lines: &Sexp, label: &Sexp, args: &[Sexp]) -> Sexp {
     let lines = lines_of(lines);
     let src = switch_source(label, args);
@@ -519,6 +616,14 @@ impl Prop for C14 {
             let mut v = vec![lines_sexp(&l), Sexp::atom("none")]; v.extend(args);
             out.push(Case::corr(Sexp::app("switch", v)).tag("switch-malformed").trivial(true));
         }
+        // nested labels on blocks and statements
+        for _ in 0..400 * scale {
+            let l = table_for_switch(rng);
+            let mut next = rng.below(50) as i32 * 1000;
+            let items = gen_nest_items(rng, &l, 3, &mut next);
+            let mut v = vec![lines_sexp(&l)]; v.extend(items);
+            out.push(Case::search(Sexp::app("nestlab", v)).tag("nested-labels"));
+        }
         // assignments with non-simple cases (lower_assign_diff_switch)
         for _ in 0..500 * scale {
             let l = table_for_switch(rng);
@@ -555,6 +660,7 @@ impl Prop for C14 {
             Some("file") => file_case(&a[0]),
             Some("swspec") => swspec_case(&a[0], &a[1], &a[2..]),
             Some("swrt") => swrt_case(&a[0], &a[1], &a[2..]),
+            Some("nestlab") => nestlab_case(&a[0], &a[1..]),
             _ => Sexp::atom("bad-case"),
         }
     }
